@@ -186,7 +186,9 @@ namespace detail
 		GLM_FUNC_QUALIFIER static vec<L, T, Q> call(vec<L, T, Q> const& x)
 		{
 			T const Shift(static_cast<T>(sizeof(T) * 8 - 1));
-			vec<L, T, Q> const y(vec<L, typename detail::make_unsigned<T>::type, Q>(-x) >> typename detail::make_unsigned<T>::type(Shift));
+			// negate in the unsigned type: -x overflows for the most negative value
+			typedef typename detail::make_unsigned<T>::type U;
+			vec<L, T, Q> const y((vec<L, U, Q>(static_cast<U>(0)) - vec<L, U, Q>(x)) >> U(Shift));
 
 			return (x >> Shift) | y;
 		}
